@@ -77,6 +77,140 @@ PLAN = e1prop.Plan('C12', ROWS, cfgs=('v6', 'v7', 'v6-nosec', 'v7-virt', 'v7-vms
                    hooked=(False, True))
 
 
+RT_HMODE = {'irq': 'irq', 'fiq': 'fiq', 'svc': 'svc', 'undef': 'und', 'dabort': 'abt'}
+RT_VEC = {'irq': 0x18, 'fiq': 0x1C, 'svc': 0x08, 'undef': 0x04, 'dabort': 0x10}
+
+
+def rt_eval(case, kind):
+    """interrupt, run the return instruction at the vector, compare with the interrupted state; returns (pre, None | (bucket suffix, detail))"""
+    from vf import e1, target
+    hmode, vec = RT_HMODE[kind], RT_VEC[kind]
+    cpu = e1.build(case)
+    pre = target.snapshot(cpu)
+    thumb = bool(pre['cpsr'] & 0x20)
+    it = ((pre['cpsr'] >> 25) & 3) | (((pre['cpsr'] >> 10) & 0x3F) << 2)
+    if kind == 'irq':
+        cpu.registers.take_physical_irq_exception()
+        exc = None
+    elif kind == 'fiq':
+        cpu.registers.take_physical_fiq_exception()
+        exc = None
+    else:
+        exc = target.step_budget(cpu)
+    mid = target.snapshot(cpu, False)
+    exc2 = target.step_budget(cpu)          # the return instruction
+    post = target.snapshot(cpu)
+    entered = (mid['cpsr'] & 31) == gen.MODES[hmode] and mid['R.PC'] == vec
+    want = dict(pre)
+    ilen = 2 if thumb else 4
+    if kind in ('svc', 'undef'):             # irq/fiq resume where they were; LR-8 re-executes the aborting instruction
+        want['R.PC'] = (pre['R.PC'] + ilen) & 0xFFFFFFFF
+        if kind == 'svc' and it:
+            # SVC advances the IT state before it is saved
+            from vf.ref.machine import Machine
+            from vf import diff
+            M = Machine(pre, [], diff.full_cfg(case['cfg']))
+            M.it_advance()
+            want['cpsr'] = M.s['cpsr']
+    ignore = {'R.LR' + hmode, 'spsr_' + hmode, 'dfsr', 'dfar'}
+    d = {k: (want[k], post[k]) for k in post if k not in ignore and want.get(k) != post[k]}
+    if exc is not None or exc2 is not None:
+        return pre, ('host-error', {'exc': repr(exc or exc2)})
+    if not entered:
+        return pre, ('not-entered', {'mode_after_entry': mid['cpsr'] & 31, 'pc': mid['R.PC']})
+    if d:
+        return pre, (e1prop.sig(d), {'not_restored(expected,observed)': e1.fmt_diff(d)})
+    return pre, None
+
+
+# ------------------------------------------------------------------------------------------------ PSR write rules, called directly
+PSR_CFGS = ['v6', 'v6-nosec', 'v7-virt', 'v7']
+
+
+def psr_cell(acc, rng, cfgname, mode, mask, ret, spsr, fixed=None):
+    """Registers.cpsr_write_by_instr / spsr_write_by_instr called directly: every current mode x byte mask x exception-return flag x secure/non-secure
+    x NMFI x SCR.AW/FW x NSACR.RFR x extension configuration, written values aimed at forbidden changes"""
+    from vf import target, diff, e1
+    from vf.ref.machine import Machine, Unpred, cpsr_write_by_instr, spsr_write_by_instr
+    cfg = diff.full_cfg(gen.CONFIGS[cfgname])
+    cpu = target.new_cpu(gen.CONFIGS[cfgname], False, [(0, 0x40)])
+    st_ = gen.gen_core(rng)
+    thumb = rng.getrandbits(1)
+    st_['cpsr'] = gen.gen_cpsr(rng, cfg, bool(thumb), mode=mode, e=rng.getrandbits(1))
+    for k in gen.SPSR_KEYS:
+        st_[k] = gen.gen_spsr(rng, cfg)
+    st_['sctlr'] = rng.getrandbits(32) & ~1
+    if cfg['have_security_ext']:
+        st_['scr'] = rng.getrandbits(10) | (1 if mode == 'hyp' else 0)
+        st_['nsacr'] = rng.getrandbits(20)
+    value = rng.getrandbits(32)
+    r = rng.random()
+    if r < 0.5:
+        value = (value & ~31) | rng.choice(list(gen.MODES.values()))
+    elif r < 0.7:
+        value = (value & ~31) | rng.choice((0, 1, 0b10100, 0b10101, 0b11000, 0b11110, 0b11100, 0b11001))
+    if fixed is not None:
+        st_, value = fixed
+    target.apply_state(cpu, st_)
+    pre = target.snapshot(cpu, False)
+    M = Machine(pre, [], cfg)
+    try:
+        if spsr:
+            spsr_write_by_instr(M, value, mask)
+        else:
+            cpsr_write_by_instr(M, value, mask, ret)
+        ref = 'ok'
+    except Unpred:
+        ref = 'unpred'
+    try:
+        if spsr:
+            cpu.registers.spsr_write_by_instr(value, mask)
+        else:
+            cpu.registers.cpsr_write_by_instr(value, mask, ret)
+        exc = None
+    except Exception as e:
+        exc = e
+    post = target.snapshot(cpu, False)
+    key = (cfgname, mode, mask, ret, spsr, value, pre['cpsr'], pre.get('scr', 0) & 0x31, (pre['sctlr'] >> 27) & 1)
+    forbidden = ((value ^ pre['cpsr']) & 0x1DF) != 0 or ret
+    acc.case(bool(forbidden) and ref == 'ok', key, cls='psr-unit:%s' % ('spsr' if spsr else ('cpsr-ret' if ret else 'cpsr')),
+             sample=lambda: {'config': cfgname, 'mode': mode, 'bytemask': mask, 'exception_return': ret, 'value': '%#x' % value, 'cpsr': '%#x' % pre['cpsr'],
+                             'scr': '%#x' % pre.get('scr', 0), 'nmfi': (pre['sctlr'] >> 27) & 1, 'result': '%#x' % post['cpsr']})
+    case = {'psr_unit': [cfgname, mode, mask, ret, spsr, value], 'state': pre}
+    if exc is not None:
+        if not (ref == 'unpred' and target.escape_ok(exc)):
+            acc.violation('C12:psr-unit:host-error:' + type(exc).__name__, case, {'exc': repr(exc), 'reference': ref})
+        return
+    if ref == 'unpred':
+        acc.excluded += 1
+        if e1.in_range(post):
+            acc.violation('C12:psr-unit:out-of-range', case, {'keys': e1.in_range(post)})
+        return
+    d = diff.compare(M, post, pre)
+    if d:
+        acc.violation('C12:psr-unit:%s:%s' % ('spsr' if spsr else ('cpsr-ret' if ret else 'cpsr'), e1prop.sig(d)), case,
+                      {'diffs(expected,observed)': e1.fmt_diff(d), 'mode': mode, 'bytemask': mask})
+
+
+def shard_psr_unit(part, nparts, seed, reps):
+    import random
+    from vf import diff
+    from vf.runner import Acc
+    acc = Acc()
+    rng = random.Random(seed)
+    i = 0
+    for cfgname in PSR_CFGS:
+        for mode in gen.valid_modes(diff.full_cfg(gen.CONFIGS[cfgname])):
+            for mask in range(16):
+                for ret, spsr in ((False, False), (True, False), (False, True)):
+                    i += 1
+                    if i % nparts != part:
+                        continue
+                    for _ in range(reps):
+                        psr_cell(acc, rng, cfgname, mode, mask, ret, spsr)
+    return acc
+
+
 def shard_roundtrip(seed, count):
     """reference-free: interrupt a generated program state with each exception kind, run the canonical return from a handler placed at
     the vector; the interrupted program's CPSR, registers and PC must be intact (only the handler mode's LR/SPSR may differ)"""
@@ -120,46 +254,11 @@ def shard_roundtrip(seed, count):
         ret = e1.enc_thumb(0xF3DE8F00 | sub, True) if te else e1.enc_arm(0xE25EF000 | sub)
         vec = {'irq': 0x18, 'fiq': 0x1C, 'svc': 0x08, 'undef': 0x04, 'dabort': 0x10}[kind]
         case['poke'].append([vec, ret.hex()])
-        cpu = e1.build(case)
-        pre = target.snapshot(cpu)
-        if kind == 'irq':
-            cpu.registers.take_physical_irq_exception()
-            exc = None
-        elif kind == 'fiq':
-            cpu.registers.take_physical_fiq_exception()
-            exc = None
-        else:
-            exc = target.step_budget(cpu)
-        mid = target.snapshot(cpu, False)
-        exc2 = target.step_budget(cpu)          # the return instruction
-        post = target.snapshot(cpu)
-        entered = (mid['cpsr'] & 31) == gen.MODES[hmode] and mid['R.PC'] == vec
-        # expected resume point and CPSR
-        want = dict(pre)
-        ilen = 2 if thumb else 4
-        if kind in ('irq', 'fiq'):
-            pass                                                   # resumes exactly where it was
-        elif kind == 'dabort':
-            pass                                                   # LR-8 re-executes the aborting instruction
-        else:
-            want['R.PC'] = (pre['R.PC'] + ilen) & 0xFFFFFFFF
-            if kind == 'svc' and it:
-                # SVC advances the IT state before it is saved
-                from vf.ref.machine import Machine
-                from vf import diff
-                M = Machine(pre, [], diff.full_cfg(case['cfg']))
-                M.it_advance()
-                want['cpsr'] = M.s['cpsr']
-        ignore = {'R.LR' + hmode, 'spsr_' + hmode, 'dfsr', 'dfar'}
-        d = {k: (want[k], post[k]) for k in post if k not in ignore and want.get(k) != post[k]}
+        pre, bad = rt_eval(case, kind)
         acc.case(bool(thumb or it or (pre['cpsr'] >> 28)), ('rt', kind, cfgname, mode, thumb, it, te, pre['cpsr']), cls='roundtrip:' + kind,
                  sample={'kind': kind, 'config': cfgname, 'interrupted_mode': mode, 'thumb': thumb, 'itstate': it, 'thumb_handler': te})
-        if exc is not None or exc2 is not None:
-            acc.violation('C12:roundtrip:%s:host-error' % kind, case, {'exc': repr(exc or exc2)})
-        elif not entered:
-            acc.violation('C12:roundtrip:%s:not-entered' % kind, case, {'mode_after_entry': mid['cpsr'] & 31, 'pc': mid['R.PC']})
-        elif d:
-            acc.violation('C12:roundtrip:%s:%s' % (kind, e1prop.sig(d)), dict(case, roundtrip=kind), {'not_restored(expected,observed)': e1.fmt_diff(d)})
+        if bad:
+            acc.violation('C12:roundtrip:%s:%s' % (kind, bad[0]), dict(case, roundtrip=kind), bad[1])
     return acc
 
 
@@ -172,13 +271,25 @@ def run(ctx):
                 'wait flags and the words sent to the coprocessor). Non-trivial: condition passed and state other than PC changed. Plus a reference-free round trip: '
                 'a generated interrupted state (ARM/Thumb, any mode, mid-IT block, any flags, E) is interrupted by IRQ/FIQ (between steps) or SVC/UDF/an '
                 'aborting load, the handler at the vector executes the canonical return (SUBS PC,LR,#n from ARM or Thumb handler state) and the interrupted '
-                'CPSR, every register and the resume PC must be intact.')
+                'CPSR, every register and the resume PC must be intact. Plus direct calls of Registers.cpsr_write_by_instr / spsr_write_by_instr for every configuration x current mode x '
+                '16 byte masks x exception-return flag with random SCTLR.NMFI, SCR.{NS,AW,FW}, NSACR.RFR and values aimed at forbidden changes, against the reference write rules (B1.3.3).')
     ctx.technique = 'property-based differential testing against an independent reference interpreter (Hypothesis-driven generation)'
     ctx.assumptions = ['vf/ref (tables + sem_sys.py + machine.py PSR-write rules) is a faithful reading of DDI 0406C',
                        'cp14/cp15 register decode is a documented mock hook and is not modelled', 'HSR.IL is not compared']
     e1prop.run_plan(ctx, 'vf.props.c12:PLAN', PLAN, shards=32, quick=600, thorough=10000)
     ctx.pmap(shard_roundtrip, [(ctx.shard_seed(500 + i), ctx.n(700, 15000)) for i in range(8)])
+    ctx.pmap(shard_psr_unit, [(i, 8, ctx.shard_seed(600 + i), ctx.n(6, 120)) for i in range(8)])
 
 
 def replay(case, bucket=None):
+    if 'roundtrip' in case:
+        _, bad = rt_eval(case, case['roundtrip'])
+        return [bad[0]] if bad else []
+    if 'psr_unit' in case:
+        import random
+        from vf.runner import Acc
+        cfgname, mode, mask, ret, spsr, value = case['psr_unit']
+        acc = Acc()
+        psr_cell(acc, random.Random(0), cfgname, mode, mask, ret, spsr, fixed=(case['state'], value))
+        return sorted(acc.viol)
     return e1prop.replay(PLAN, case)
